@@ -947,11 +947,11 @@ Theorem pair_poll_w_mirror_refuted_pinned k :
   pr_writable s = false /\ can_send s = true /\
   exists s' rest, pair_step k false s (PSend None 7%N true (mkPmsg [0; 0; 0; 0]%N [1%N])) = (s', Complete 7%N E_OK None :: rest).
 Proof.
-  destruct k as [|[]]; cbn; repeat split; auto; try tauto; eexists _, _; reflexivity.
+  destruct k as [|[]]; vm_compute; (split; [tauto|]); (split; [reflexivity|]); (split; [reflexivity|]); eexists _, _; reflexivity.
 Qed.
 Theorem pair_poll_w_mirror_repaired_on_witness k :
   let s := fst (pair_run k true pair_init (poll_w_witness k)) in pr_writable s = can_send s.
-Proof. destruct k as [|[]]; reflexivity. Qed.
+Proof. destruct k as [|[]]; vm_compute; reflexivity. Qed.
 
 (* why op_ok demands that a successful send completion belongs to the attached pipe:
    pipe_send_cb calls send_sched(s) for whatever pipe is attached NOW.  If the callback of a
@@ -970,4 +970,4 @@ Theorem pair_stale_send_completion_refuted fx :
   tr_acc K0 tr = [mkPmsg [] [1%N]; mkPmsg [] [2%N]; mkPmsg [] [3%N]] /\
   tr_tx tr = [mkPmsg [] [1%N]; mkPmsg [] [2%N]; mkPmsg [] [3%N]] /\
   pr_p s = Some 2%N /\ sendingl s = [mkPmsg [] [3%N]] /\ tr_wloss tr = [].
-Proof. destruct fx; cbn; repeat split; reflexivity. Qed.
+Proof. destruct fx; vm_compute; repeat split; reflexivity. Qed.
